@@ -494,6 +494,7 @@ class World:
             str=shim(str, sym_str, (SymStr, OStr)),
             float=shim(float, sym_float),
             bytes=ABuf, bytearray=ABuf, __abuf__=ABuf,
+            memoryview=lambda x: _abuf.AView(x) if isinstance(x, (ABuf, _abuf.AView)) else _bi.memoryview(x),
             open=self.fs.open,
             print=lambda *a, **k: None,
             input=_no_input,
